@@ -25,6 +25,7 @@ def parseCode (s : String) : Option Code :=
   else if s == "connreset" then some 1003
   else if s == "epipe" then some 1004
   else if s == "deadline" then some 1005
+  else if s == "othertmp" then some 1006
   else if s == "other" then some 2000
   else if s == "ctx" then some 2001
   else if s == "closed" then some 2002
@@ -38,6 +39,7 @@ def showCode (c : Code) : String :=
   else if c == 1003 then "connreset"
   else if c == 1004 then "epipe"
   else if c == 1005 then "deadline"
+  else if c == 1006 then "othertmp"
   else if c == 2000 then "other"
   else if c == 2001 then "ctx"
   else if c == 2002 then "closed"
@@ -48,7 +50,9 @@ context.DeadlineExceeded reports Temporary() = true -/
 def retriable (c : Code) : Bool :=
   Gen.temporaryCodes.contains c ||
   Gen.transientNet.any (fun t => parseCode t == some c) ||
-  c == 1005
+  c == 1005 ||
+  -- wire runs only: an unnamed transport error after which the Writer retried (see go/cmd/writer renderEvents)
+  c == 1006
 
 def idOf (pre : String) (s : String) : Option Nat :=
   if s.startsWith pre then (s.drop pre.length).toString.toNat? else none
